@@ -17,7 +17,7 @@ tvars == <<svars, l>>
 
 Ev == Trace[l]
 
-TInit == /\ SNew(0, <<>>, <<>>) /\ script = <<>>
+TInit == /\ SNew(0, <<>>, <<>>, <<>>) /\ script = <<>>
          /\ l = 1
          /\ TLCSet(1, 0)
 
@@ -28,6 +28,7 @@ TNewS == /\ Ev.ev = "new"
          /\ sent' = 0 /\ chan' = <<>> /\ phase' = "registering" /\ idx' = 0 /\ failed' = FALSE
          /\ calls' = [i \in 1..Ev.n |-> 0] /\ order' = <<>> /\ status' = -1
          /\ regOwn' = <<>> /\ regLen' = 0 /\ regAlias' = FALSE
+         /\ stype' = Ev.stype
          /\ UNCHANGED <<script, plan, plan0, mem>>
 (* Add(svcs...): ids are the services passed, as they were when Add was called. *)
 TAdd == Ev.ev = "add" /\ AddGroup(Ev.ids)
